@@ -33,7 +33,15 @@ def check(run):
         if o.rule == 'C03-CLASS':
             o.rule = 'C13-CLASS'
     run.floors = [(('C13-CLASS' if r == 'C03-CLASS' else r), c, m) for r, c, m in run.floors]
-    from .c03 import discard
+    from .c03 import discard, wspad, catsync
+    wspad(run, p, 'C13-WSPAD')
+    before = len(run.obs)
+    catsync(run, p)
+    run.rules['C13-CATSYNC'] = run.rules.pop('C03-CATSYNC') + ' (an output class thinned against a different example list than the internal one renders an expression that matches none of the examples)'
+    for o in run.obs[before:]:
+        if o.rule == 'C03-CATSYNC':
+            o.rule = 'C13-CATSYNC'
+    run.floors = [(('C13-CATSYNC' if r == 'C03-CATSYNC' else r), c, m) for r, c, m in run.floors]
     discard(run, p, 'C13-STRIPCOUNT')
     run.rules['C13-STRIPCOUNT'] += ' (the stripped-examples counter decides whether the expressions get their \\s* wrappers: a blank example counted wrongly leaves an expression that matches none of the examples as given)'
     from .common import observed_rule
